@@ -336,7 +336,10 @@ Definition observe (e : engine) (ro : list name) (fo : list (name * list name)) 
                   adds [] (fb_of e n), lvl_get (d_lvl d 4) n)) (d_flat d),
    d_fbs d,
    (obs_tree d 2, map (fun x => (x, t_anc d x, t_par d x)) (t_nodes d 2)),
-   obs_tree d 3, obs_tree d 1).
+   obs_tree d 3, obs_tree d 1,
+   (* = fst (graph_of e ro fo), without running construct twice *)
+   map (fun g => (g_tag g, g_kids g, g_anc g, g_asp g, g_fac g, g_lvl g, g_ins g, g_outs g))
+       (map (gnode_of e d) (filter (fun b => mem (b_tag b) (t_nodes d 2)) (build_order e)))).
 
 (* ------------------------------------------------------------- examples *)
 (* a0 -> a1 -> a2, a0 -> a2 (value ref), a0 consumes a2's value as feedback *)
